@@ -194,7 +194,7 @@ CHECKS['C14'] = {
 }
 
 CHECKS['C12'] = {
-    'grid': {'sets': ['c12'], 'bound': 'every file content of up to 2 lines over a 4-line pool with LF / CRLF / no final terminator (109 contents) as one file, all ordered pairs of 21 of them and all ordered triples of 6 as several files; lines of 1..20000 bytes; 2 x 3000 lines; three invalid-UTF-8 lines; SELECT input, COUNT(*) and an inner join whose joined file is the grid file (1247 cases)'},
+    'grid': {'sets': ['c12'], 'bound': 'every file content of up to 2 lines over a 4-line pool with LF / CRLF / no final terminator (109 contents) as one file, all ordered pairs of 21 of them and all ordered triples of 6 as several files; lines of 1 byte .. 3 MB; 2 x 3000 lines; invalid-UTF-8 lines in the input and in the joined file; SELECT input, COUNT(*) and an inner join whose joined file is the grid file (1247 cases)'},
     'verus_units': ['executor', 'joinload'],
     'clause_prefixes': ['c12'],
     'technique': 'contract-based deductive verification (Verus): FileExecutor::execute (both nested reader loops, labelled break) extracted from /repo and proved equal to a recursive run function sem_run; the property is proved as lemmas about sem_run',
